@@ -1,5 +1,6 @@
 // hkharness drives the real hookaido packages (built from /repo's working tree with -tags verif)
 // and writes one JSON record per step for the Lean driver.
+//go:debug randseednop=0
 package main
 
 import (
@@ -16,6 +17,8 @@ func main() {
 	switch os.Args[1] {
 	case "queue":
 		err = cmdQueue(os.Args[2:])
+	case "dispatch":
+		err = cmdDispatch(os.Args[2:])
 	default:
 		err = fmt.Errorf("unknown subcommand %q", os.Args[1])
 	}
